@@ -118,6 +118,13 @@ func followerProfile() Profile {
 	return p
 }
 
+// storeProfile is E4 storesim: the in-memory storage driven directly.
+func storeProfile() Profile {
+	p := DefaultProfile()
+	p.StoreSim = true
+	return p
+}
+
 // nodeProfile is E3 nodesim: every node is driven through the channel-based
 // raft.Node (node.go), whose run loop goroutine the simulator schedules.
 func nodeProfile() Profile {
@@ -228,6 +235,11 @@ func determinismProfile() Profile {
 // cheaper than whole-group runs.
 var followerProps = map[string]float64{"C01": 1.5, "C03": 2, "C05": 1.5, "C06": 1, "C07": 1.5, "C08": 1.5, "C09": 1.5, "C14": 1.5, "C15": 2, "C18": 2, "C19": 0.5}
 
+// storeProps are the properties whose subject includes the in-memory storage
+// on its own (C18) or a panic inside it under contract-following use (C14);
+// their checks add a batch of E4 (storesim) runs, which cost microseconds.
+var storeProps = map[string]float64{"C18": 6, "C14": 2}
+
 // nodeProps are the properties whose anchors include node.go (C05, C10, C20)
 // or whose subject the channel-based Node can disturb by the way it sequences
 // inputs, Ready and Advance (C08, C14, C15, C19); their checks add a batch of
@@ -239,6 +251,10 @@ func SpecFor(id string) PropSpec {
 	s := specFor(id)
 	if sh, ok := followerProps[id]; ok {
 		s.Profiles = append(s.Profiles, withName(followerProfile(), id+"-follower"))
+		s.Shares = append(s.Shares, sh)
+	}
+	if sh, ok := storeProps[id]; ok {
+		s.Profiles = append(s.Profiles, withName(storeProfile(), id+"-store"))
 		s.Shares = append(s.Shares, sh)
 	}
 	if sh, ok := nodeProps[id]; ok {
